@@ -14,6 +14,8 @@ G_GROUPS = {
     "map3": ("MC_Yata", "G_map3.cfg", {}),
     "nesta3": ("MC_Yata", "G_nesta3.cfg", {"filter": "nested", "sample": {"quick": 2500, "thorough": 30000}}),
     "nestm3": ("MC_Yata", "G_nestm3.cfg", {"filter": "nested", "sample": {"quick": 2500, "thorough": 30000}}),
+    "alg3": ("MC_Yata", "G_alg3.cfg", {"filter": "merged", "sample": {"quick": 3000, "thorough": 40000}}),
+    "algm3": ("MC_Yata", "G_algm3.cfg", {"filter": "merged", "sample": {"quick": 2000, "thorough": 40000}}),
     "seq4": ("MC_Yata", "G_seq4.cfg", {}),
     "map4": ("MC_Yata", "G_map4.cfg", {}),
 }
@@ -26,9 +28,9 @@ D_GROUPS = {
     "d_nest4": ("MC_Yata", "D_nest4.cfg"),
 }
 TIERS = {
-    "quick": {"design": ["d_seq", "d_map", "d_nest"], "gen": ["seq3", "map3", "nesta3", "nestm3"], "random": 2},
+    "quick": {"design": ["d_seq", "d_map", "d_nest"], "gen": ["seq3", "map3", "nesta3", "nestm3", "alg3", "algm3"], "random": 2},
     "thorough": {"design": ["d_seq", "d_map", "d_nest", "d_seq4", "d_map4", "d_nest4"],
-                 "gen": ["seq3", "map3", "nesta3", "nestm3", "seq4", "map4"], "random": 30},
+                 "gen": ["seq3", "map3", "nesta3", "nestm3", "alg3", "algm3", "seq4", "map4"], "random": 30},
 }
 
 
@@ -47,6 +49,10 @@ def make_schedules(hists, gname, seed, authors=(1, 2)):
         steps = list(h)
         for i in range(1, nupd + 1):
             steps.append({"a": "dlv", "r": 9, "u": [i]})
+        # document-free state vector of merged updates (C08)
+        steps.append({"a": "svu", "u": list(range(1, nupd + 1))})
+        if nupd > 1:
+            steps.append({"a": "svu", "u": list(range(1, nupd // 2 + 1))})
         # closing exchange: every author catches up from observer 8 (diff / full state alternate)
         for j, a in enumerate(authors):
             steps.append({"a": "sync", "f": 8, "t": a, "how": "diff" if (idx + j) % 2 == 0 else "state", "sv": "own", "closing": True})
@@ -72,40 +78,62 @@ def nontrivial(sched):
     return False
 
 
-def run_group(gname, tier, workdir):
-    """G -> X -> V for one generator group. Returns a result dict (cached by tree hash)."""
-    seed = vlib.seed()
-    key = "%s-%s-%s-%d" % (vlib.tree_hash(), gname, tier, seed)
+def _cache_path(*parts):
     cdir = os.path.join(vlib.WORK, "cache")
     os.makedirs(cdir, exist_ok=True)
-    cpath = os.path.join(cdir, key + ".json")
+    return os.path.join(cdir, "-".join(str(p) for p in parts) + ".json")
+
+
+def gen_hists(gname, tier, workdir):
+    """G stage for one generator group: TLC-enumerated histories (filtered / sampled as configured).
+    Returns (histories, stats); cached by tree hash."""
+    seed = vlib.seed()
+    cpath = _cache_path(vlib.tree_hash(), "G", gname, tier, seed)
     if os.path.exists(cpath):
         with open(cpath) as f:
-            r = json.load(f)
-        r["cached"] = True
-        return r
+            d = json.load(f)
+        return d["hists"], d["stats"]
     module, cfg, opts = G_GROUPS[gname]
-    wd = os.path.join(workdir, gname)
-    shutil.rmtree(wd, ignore_errors=True)
-    os.makedirs(wd)
-    t0 = time.time()
-    g = vlib.generate(module, cfg, os.path.join(wd, "g"))
+    g = vlib.generate(module, cfg, os.path.join(workdir, gname, "g"))
     hists = g["replay"]
     total = len(hists)
     if opts.get("filter") == "nested":
         # histories without a nested value repeat what the flat groups already enumerate
         hists = [h for h in hists if any(s.get("k") in ("A", "M") for s in h)]
+    if opts.get("filter") == "merged":
+        hists = [h for h in hists if any(s["a"] == "dlv" and len(s["u"]) > 1 for s in h)]
     hists.sort(key=lambda h: json.dumps(h, sort_keys=True))
     n = opts.get("sample", {}).get(tier)
     if n and len(hists) > n:
         hists = random.Random(_h(seed, gname)).sample(hists, n)
-    g["replay"] = [0] * total
+    stats = {"distinct": g["distinct"], "generated": g["generated"], "depth": g["depth"], "wall": g["wall"], "replay": total}
+    with open(cpath, "w") as f:
+        json.dump({"hists": hists, "stats": stats}, f)
+    return hists, stats
+
+
+def run_group(gname, tier, workdir, engine="yata", transform=None, trace=("Trace_Yata", "Trace_Yata.cfg"), repeat=1):
+    """G -> X -> V for one generator group. `transform(schedules, seed, tier) -> schedules` lets an extension
+    engine add its own configuration and steps. Returns a result dict (cached by tree hash)."""
+    seed = vlib.seed()
+    cpath = _cache_path(vlib.tree_hash(), engine, gname, tier, seed)
+    if os.path.exists(cpath):
+        with open(cpath) as f:
+            r = json.load(f)
+        r["cached"] = True
+        return r
+    wd = os.path.join(workdir, engine + "-" + gname)
+    shutil.rmtree(wd, ignore_errors=True)
+    os.makedirs(wd)
+    t0 = time.time()
+    hists, gstats = gen_hists(gname, tier, workdir)
     scheds = make_schedules(hists, gname, seed)
-    return _xv(gname, scheds, wd, cpath, {"distinct": g["distinct"], "generated": g["generated"], "depth": g["depth"],
-                                            "wall": g["wall"], "replay": len(g["replay"])}, t0)
+    if transform:
+        scheds = transform(scheds, seed, tier)
+    return _xv(gname, scheds, wd, cpath, gstats, t0, trace=trace, engine=engine, repeat=repeat)
 
 
-def _xv(gname, scheds, wd, cpath, gstats, t0, rand=None):
+def _xv(gname, scheds, wd, cpath, gstats, t0, rand=None, trace=("Trace_Yata", "Trace_Yata.cfg"), engine="yata", repeat=1):
     sfile = os.path.join(wd, "schedules.ndjson")
     tfile = os.path.join(wd, "trace.ndjson")
     tx = time.time()
@@ -113,20 +141,37 @@ def _xv(gname, scheds, wd, cpath, gstats, t0, rand=None):
         with open(sfile, "w") as f:
             for s in scheds:
                 f.write(json.dumps(s) + "\n")
-        xs = vlib.run_x(["yata-run", "--in", sfile, "--out", tfile, "--seed", str(vlib.seed())])
+        xs = vlib.run_x(["yata-run", "--in", sfile, "--out", tfile, "--seed", str(vlib.seed()), "--repeat", str(repeat)])
     else:
         xs = vlib.run_x(["yata-random", "--out-sched", sfile, "--out", tfile] + rand)
         with open(sfile) as f:
             scheds = [json.loads(ln) for ln in f if ln.strip()]
     tv = time.time()
-    merged = vlib.validate("Trace_Yata", "Trace_Yata.cfg", tfile, os.path.join(wd, "v"), parallel=10)
+    merged = vlib.validate(trace[0], trace[1], tfile, os.path.join(wd, "v"), parallel=10)
     by_bid = {s["bid"]: s for s in scheds}
     bad = {}
     for bid, pred, line in merged["viol"]:
         bad.setdefault(bid, []).append([pred, line])
     nt = [hashlib.sha256(json.dumps(s["steps"], sort_keys=True).encode()).hexdigest()[:16] for s in scheds if nontrivial(s)]
-    res = {"group": gname, "g": gstats, "x": xs, "x_wall": tv - tx, "v_wall": time.time() - tv, "merged": merged,
-           "bad": {b: {"preds": p, "schedule": by_bid.get(b)} for b, p in bad.items()},
+    # attach the failing event of every violating behaviour (for known-finding patterns and replay)
+    if bad:
+        evs, cur = {}, None
+        with open(tfile) as f:
+            for ln in f:
+                if ln.startswith('{"bid":'):
+                    cur = json.loads(ln)["bid"]
+                    cur = cur if cur in bad else None
+                    if cur:
+                        evs[cur] = []
+                elif cur:
+                    evs[cur].append(ln)
+        for b, preds in bad.items():
+            k = min(p[1] for p in preds)
+            if b in evs and 1 <= k <= len(evs[b]):
+                by_bid.setdefault(b, {})["_event"] = json.loads(evs[b][k - 1])
+    res = {"group": gname, "engine": engine, "g": gstats, "x": xs, "x_wall": tv - tx, "v_wall": time.time() - tv, "merged": merged,
+           "bad": {b: {"preds": p, "schedule": {k: v for k, v in by_bid.get(b, {}).items() if k != "_event"},
+                       "event": by_bid.get(b, {}).get("_event")} for b, p in bad.items()},
            "nontrivial": sorted(set(nt)), "samples": scheds[:1] + scheds[len(scheds) // 2:len(scheds) // 2 + 1],
            "wall": time.time() - t0, "cached": False}
     with open(cpath, "w") as f:
@@ -140,32 +185,26 @@ def _xv(gname, scheds, wd, cpath, gstats, t0, rand=None):
     return res
 
 
-def run_random(ix, tier, workdir):
+def run_random(ix, tier, workdir, engine="yata", ext=(), gc_off=False, trace=("Trace_Yata", "Trace_Yata.cfg"), behaviours=None, ops=None):
     seed = vlib.seed()
     gname = "rand%03d" % ix
-    key = "%s-%s-%s-%d" % (vlib.tree_hash(), gname, tier, seed)
-    cdir = os.path.join(vlib.WORK, "cache")
-    os.makedirs(cdir, exist_ok=True)
-    cpath = os.path.join(cdir, key + ".json")
+    cpath = _cache_path(vlib.tree_hash(), engine, gname, tier, seed)
     if os.path.exists(cpath):
         with open(cpath) as f:
             r = json.load(f)
         r["cached"] = True
         return r
-    wd = os.path.join(workdir, gname)
+    wd = os.path.join(workdir, engine + "-" + gname)
     shutil.rmtree(wd, ignore_errors=True)
     os.makedirs(wd)
     t0 = time.time()
-    rand = ["--seed", str(_h(seed, ix) % (1 << 31)), "--behaviours", "150" if tier == "quick" else "400",
-            "--ops", "12" if ix % 2 == 0 else "40"]
-    return _xv(gname, None, wd, cpath, None, t0, rand=rand)
+    rand = ["--seed", str(_h(seed, ix, engine) % (1 << 31)), "--behaviours", str(behaviours or (150 if tier == "quick" else 400)),
+            "--ops", str(ops or (12 if ix % 2 == 0 else 40)), "--ext", ",".join(ext), "--gc-off", "1" if gc_off else "0"]
+    return _xv(gname, None, wd, cpath, None, t0, rand=rand, trace=trace, engine=engine)
 
 
 def run_design(dname, tier, workdir):
-    key = "%s-%s" % (vlib.tree_hash(), dname)
-    cdir = os.path.join(vlib.WORK, "cache")
-    os.makedirs(cdir, exist_ok=True)
-    cpath = os.path.join(cdir, key + ".json")
+    cpath = _cache_path(vlib.tree_hash(), "D", dname)
     if os.path.exists(cpath):
         with open(cpath) as f:
             r = json.load(f)
@@ -184,7 +223,7 @@ def run_design(dname, tier, workdir):
 # plugin interface used by ./check and tools/mkmanifest.py
 
 PREFIXES = {
-    "C01": ["C01_"], "C02": ["C02_"], "C04": ["C04_"], "C05": ["C05_"], "C06": ["C06_"], "C07": ["C07_"], "C15": ["C15_"],
+    "C01": ["C01_"], "C02": ["C02_"], "C04": ["C04_"], "C05": ["C05_"], "C06": ["C06_"], "C07": ["C07_"], "C08": ["C08_"], "C15": ["C15_"],
 }
 PROPS = sorted(PREFIXES)
 
